@@ -6,6 +6,12 @@ ASSUMPTIONS = ['hash table shapes enumerated (2 buckets, up to 3+2 entries); ids
 EXPLANATION = 'name hash table operations enforced against an abstract (bucket,id) view: delete removes exactly one entry, renumbers later ids, keeps order'
 HF = ['src/drivers/ncmpio/ncmpio_hash_func.c']
 
+def copy_att_job(prop):
+    return Job('%s/ncmpio_copy_att' % prop, prop, ['src/drivers/ncmpio/ncmpio_attr.m4', 'src/drivers/common/error_mpi2nc.c'], 'C07_attr.c', enforce='ncmpio_copy_att', replace=['ncmpio_NC_findattr'], extra_src=['stubs/mpi_model.c'],
+               defines=['-DH_copy'], canaries=['grown_in_place', 'shorter_bytes_more_elements', 'appended', 'needs_define_mode', 'self_copy'], unwind=26, kind='bounded', timeout=600, solver=['--sat-solver', 'cadical'],
+               bound='attribute tables of 2 entries; source and destination attributes NC_BYTE or NC_INT with 0..4 elements; lookup results, mode flags symbolic; safe mode off',
+               assumptions=['ncmpio_copy_att: ncmpii_utf8_normalize (utf8proc), ncmpio_hash_insert and ncmpio_write_header are harness stubs that record their arguments; ncmpio_NC_findattr by (assumed) contract; copied bytes themselves not checked (CBMC memcpy model with symbolic length)'])
+
 def jobs(tier, ws):
     js = []
     shapes = [(1, 0), (2, 1), (3, 1), (2, 2)] if tier == 'quick' else [(1, 0), (1, 1), (2, 0), (2, 1), (3, 1), (2, 2), (3, 2), (3, 3)]
@@ -24,4 +30,10 @@ def jobs(tier, ws):
                       replace=['ncmpio_Bernstein_hash'], defines=['-DH_replace', '-DNB0=%d' % b0, '-DNB1=%d' % b1],
                       canaries=['moved_to_other_bucket', 'same_bucket', 'not_found'] + (['bucket_emptied'] if 1 in (b0, b1) else []), unwind=9, kind='bounded', solver=['--sat-solver', 'cadical'],
                       bound='2 buckets with %d and %d entries' % (b0, b1), timeout=600))
+    AT = ['src/drivers/ncmpio/ncmpio_attr.m4', 'src/drivers/common/error_mpi2nc.c']
+    js.append(Job('C07/ncmpio_rename_att', 'C07', AT, 'C07_attr.c', enforce='ncmpio_rename_att', replace=['ncmpio_NC_findattr'], extra_src=['stubs/mpi_model.c'],
+                  canaries=['renamed_in_data_mode', 'renamed_in_define_mode', 'name_in_use', 'longer_in_data_mode', 'bad_name'], unwind=26, kind='bounded', timeout=600, solver=['--sat-solver', 'cadical'],
+                  bound='attribute tables of 2 entries (global and one variable), normalised names of <= 3 characters; lookup results, mode flags symbolic; safe mode off',
+                  assumptions=['ncmpio_rename_att: ncmpii_utf8_normalize (utf8proc), ncmpio_hash_replace and ncmpio_write_header are harness stubs that record their arguments; ncmpio_NC_findattr by (assumed) contract']))
+    js.append(copy_att_job('C07'))
     return js
